@@ -47,6 +47,14 @@ same-named classes in dtml-with; expected from a plain-Python reference of the d
 dtml-in sorted on several keys, dtml-let, try, if) pickled here and rendered in child interpreters with different string hash seeds
 (restored pickle, new template, round trip there); expected from a plain-Python reference of the modifiers applied in the order of
 the documented table where there is one, else all runs must agree with this process.
+(i) what dtml-in iterates over (iterable_check): an application of long-lived containers of every iterable kind (list, tuple, deque,
+custom sequence, dict, set, frozenset, iterable-only objects, mapping-like objects, kept dict views, one-shot iterators / generators)
+next to 2..3 templates (HTML / guarded; rendered, repeated, pickled, deep-copied, cooked); the application changes the containers in
+place or replaces them between renderings, and every rendering gets long-lived objects or short-lived ones made for that call
+(d.keys() / values() / items(), generators, iterators, equal copies, new containers); dtml-in by name / expr / expr="d.items()",
+sort / reverse / batch / prefix / else / nested; expected from a reference interpreter on an equal twin application + a template
+constructed now on a third one; containers compared with the twin's after every rendering.  (The model's Engine.exec is opaque here:
+no correspondence cases, the oracle decides.)
 Correspondence: the Lean state machine (op "tmpl") vs the real object after every operation (the calling-convention histories
 included: the convention is part of the model's opaque input): raw, globals, _vars, presence
 of compiled data; the model's (program, defaults, variables, inputs) of each call determine the same output.
@@ -2032,6 +2040,547 @@ def process_check(res, r, n, seeds):
             res.oracle_fail.append({'case': {'class': kind, 'source': src, 'runs': sorted(runs)}, 'what': bad})
 
 
+# ---------------------------------------------------------------------------------------------------------------------------
+# (i) what dtml-in iterates over (iterable_check).  Everywhere else the sequences handed to a template are lists and tuples made
+# anew for every call.  Here a small "application" lives next to 2..3 templates for a whole history: long-lived containers of EVERY
+# kind that can be iterated -- list, tuple, range-like custom sequence (__getitem__ + __len__ only), deque, dict, set, frozenset, objects
+# with only __iter__ (with / without __len__), mapping-like objects (keys / get), a view kept on a dict, one-shot iterators and
+# generators that are rendered again after they ran dry -- holding numbers (1 / 1.0 / True: equal, same hash, different text),
+# strings, (key, value) pairs or records.  Between renderings the application CHANGES them in place (add / remove / clear),
+# replaces them by new objects, or nothing at all; every rendering binds each name of the template to one of the long-lived
+# objects or to a short-lived object made for that one call and dropped right after it (d.keys() / d.values() / d.items() of a
+# long-lived dict, a generator or iterator over a container, an equal copy, a brand-new container), so addresses get reused.  The
+# dtml-in tags take the value by name, by expr and as expr="d.items()" (the view is made inside the rendering), plain / sort /
+# reverse / batch (size, start) / prefix / else / nested in one another, and insert item, key, index, number, length, start / end.
+# Templates are rendered, repeated, pickled, deep-copied, cooked; all of them share the containers.
+# Expected text: a reference interpreter written here that iterates an EQUAL application (a twin world that got the same changes)
+# with plain Python; + the same call repeated; + a template constructed now on a third equal world; + the re-iterable containers of
+# the world the templates saw are compared with the twin's after every step (rendering changes nothing).
+
+import collections
+
+IT_NUMS = [0, 1, 2, 3, 5, 8, 13, 1.0, True, 2.0, False, 21, 2.5]
+IT_STRS = ['a', 'b', 'c', 'k1', 'k2', 'x0', 'y0', 'p0', 'q0', 'zz']
+IT_NAMES = {'n1': 'num', 'n2': 'num', 's1': 'str', 'p1': 'pair', 'r1': 'rec', 'd1': 'dict'}
+
+
+class ItRec:
+    def __init__(self, name, rank):
+        self.name, self.rank = name, rank
+
+    def __str__(self):
+        return 'R<%s>' % self.name
+
+    __repr__ = __str__
+
+
+class ItBag:
+    """iterable only"""
+
+    def __init__(self, items):
+        self.items = list(items)
+
+    def __iter__(self):
+        return iter(self.items)
+
+
+class ItSizedBag(ItBag):
+    """iterable with a length, no subscription"""
+
+    def __len__(self):
+        return len(self.items)
+
+
+class ItSeq:
+    """subscription and length, nothing else"""
+
+    def __init__(self, items):
+        self.items = list(items)
+
+    def __getitem__(self, i):
+        return self.items[i]
+
+    def __len__(self):
+        return len(self.items)
+
+
+class ItKeyed(ItSizedBag):
+    """looks like a mapping (keys / get / subscription by key); iterating it gives its entries"""
+
+    def keys(self):
+        return list(range(len(self.items)))
+
+    def get(self, k, default=None):
+        return self.items[k] if 0 <= k < len(self.items) else default
+
+    def __getitem__(self, k):
+        return self.items[k]
+
+
+class ItHeld:
+    """a dict of the application and a view of it that the application keeps (the templates get the view)"""
+
+    def __init__(self, items, keys):
+        self.keys = keys
+        self.n = 0
+        self.d = {}
+        self.view = self.d.keys() if keys else self.d.values()
+        self.add(items)
+
+    def add(self, items):
+        for x in items:
+            if self.keys:
+                self.d[x] = None
+            else:
+                self.n += 1
+                self.d[self.n] = x
+
+    def current(self):
+        return list(self.d) if self.keys else list(self.d.values())
+
+
+IT_WRAPPED = {'bag': ItBag, 'sizedbag': ItSizedBag, 'seq': ItSeq, 'keyed': ItKeyed}
+IT_ONE_SHOT = ('iterator', 'generator')
+IT_KINDS = ['list', 'tuple', 'deque', 'seq', 'set', 'frozenset', 'bag', 'sizedbag', 'keyed', 'iterator', 'generator', 'keysview',
+            'valuesview']
+IT_UNHASHABLE_OK = ('list', 'tuple', 'deque', 'seq', 'bag', 'sizedbag', 'keyed', 'iterator', 'generator')
+
+
+def it_gen_item(r, ty):
+    if ty == 'num':
+        return r.choice(IT_NUMS)
+    if ty == 'str':
+        return r.choice(IT_STRS)
+    if ty == 'pair' or ty == 'dict':
+        return [r.choice(IT_STRS), r.choice(IT_NUMS)]
+    return ['rec', r.choice(IT_STRS), r.randint(0, 3)]
+
+
+def it_gen_content(r, ty, lo=0, hi=4):
+    return [it_gen_item(r, ty) for _ in range(r.randint(lo, hi))]
+
+
+def it_item(spec):
+    """the object for an item description (a new one per world)"""
+    if isinstance(spec, list):
+        return ItRec(spec[1], spec[2]) if spec[0] == 'rec' and len(spec) == 3 else (spec[0], spec[1])
+    return spec
+
+
+def it_show(v):
+    return [v.name, v.rank] if isinstance(v, ItRec) else v
+
+
+def it_make(kind, content):
+    """a new container of the kind with the items described"""
+    items = [it_item(c) for c in content]
+    if kind == 'list':
+        return items
+    if kind == 'tuple':
+        return tuple(items)
+    if kind == 'deque':
+        return collections.deque(items)
+    if kind == 'set':
+        s = set()
+        for x in items:
+            s.add(x)
+        return s
+    if kind == 'frozenset':
+        return frozenset(items)
+    if kind == 'dict':
+        return dict(items)
+    if kind in IT_WRAPPED:
+        return IT_WRAPPED[kind](items)
+    if kind == 'iterator':
+        return iter(items)
+    if kind == 'generator':
+        return (x for x in items)
+    if kind in ('keysview', 'valuesview'):
+        return ItHeld(items, kind == 'keysview')
+    raise ValueError(kind)
+
+
+def it_mutate(kind, obj, op, content):
+    """the application changes a long-lived container; -> the container to go on with (the same object wherever the kind allows)"""
+    items = [it_item(c) for c in content]
+    if op == 'replace' or kind in ('tuple', 'frozenset') + IT_ONE_SHOT:
+        if op == 'replace':
+            return it_make(kind, content)
+        if kind in IT_ONE_SHOT:
+            return obj
+        old = list(obj)
+        new = old + items if op == 'add' else old[1:] if op == 'pop' else []
+        return tuple(new) if kind == 'tuple' else frozenset(new)
+    if isinstance(obj, ItHeld):
+        if op == 'add':
+            obj.add(items)
+        elif op == 'clear':
+            obj.d.clear()
+        else:
+            for k in list(obj.d)[:1]:
+                del obj.d[k]
+        return obj
+    target = obj.items if kind in IT_WRAPPED else obj
+    if op == 'clear':
+        target.clear()
+    elif op == 'pop':
+        if kind == 'dict':
+            for k in list(target)[:1]:
+                del target[k]
+        elif kind == 'set':
+            for k in sorted(target, key=repr)[:1]:
+                target.discard(k)
+        elif kind == 'deque':
+            if target:
+                target.popleft()
+        else:
+            del target[:1]
+    else:
+        for x in items:
+            if kind == 'dict':
+                target[x[0]] = x[1]
+            elif kind == 'set':
+                target.add(x)
+            else:
+                target.append(x)
+    return obj
+
+
+def it_world(members):
+    return [it_make(kind, content) for kind, _ty, content in members]
+
+
+def it_bind(world, members, how):
+    """the value one rendering gets for a name: a long-lived object of the world, or an object made for this call only"""
+    form, i = how[0], how[1]
+    if form == 'member':
+        return world[i].view if isinstance(world[i], ItHeld) else world[i]
+    if form == 'new':
+        obj = it_make(how[1], how[2])
+        return obj.view if isinstance(obj, ItHeld) else obj
+    obj = world[i].view if isinstance(world[i], ItHeld) else world[i]
+    if form == 'keys':
+        return obj.keys()
+    if form == 'values':
+        return obj.values()
+    if form == 'items':
+        return obj.items()
+    if form == 'generator over':
+        return (x for x in list(obj))
+    if form == 'iterator over':
+        return iter(obj)
+    if form == 'copy of':                   # an equal input that is another object
+        kind = members[i][0]
+        return IT_WRAPPED[kind](obj.items) if kind in IT_WRAPPED else list(obj) if kind in ('keysview', 'valuesview') else \
+            type(obj)(obj)
+    raise ValueError(form)
+
+
+def it_gen_bindings(r, names, members, no_one_shot=()):
+    """for every name of the template a value of the right item type"""
+    out = {}
+    for n in names:
+        ty = IT_NAMES[n]
+        cands = [i for i, (kind, mty, _c) in enumerate(members) if mty == ty and not (kind in IT_ONE_SHOT and n in no_one_shot)]
+        dicts = [i for i, (kind, mty, _c) in enumerate(members) if mty == 'dict']
+        k = r.random()
+        if ty == 'dict':
+            out[n] = ['member', r.choice(dicts)] if k < 0.8 else ['copy of', r.choice(dicts)] if k < 0.9 else \
+                ['new', 'dict', it_gen_content(r, 'dict')]
+            continue
+        if k < 0.5 and cands:
+            out[n] = ['member', r.choice(cands)]
+        elif k < 0.65 and ty in ('str', 'num', 'pair') and dicts:
+            out[n] = [{'str': 'keys', 'num': 'values', 'pair': 'items'}[ty], r.choice(dicts)]
+        elif k < 0.7 and ty == 'str' and dicts:
+            out[n] = ['member', r.choice(dicts)]                  # the dict itself: dtml-in goes over its keys
+        elif k < 0.85 and cands:
+            i = r.choice(cands)
+            out[n] = [r.choice(['generator over', 'iterator over', 'copy of']), i]
+            if members[i][0] in IT_ONE_SHOT:
+                out[n] = ['member', i]
+        else:
+            kind = r.choice([kd for kd in IT_KINDS if ty != 'rec' or kd in IT_UNHASHABLE_OK])
+            out[n] = ['new', kind, it_gen_content(r, ty)]
+    return out
+
+
+# --- templates
+
+def it_gen_in(r, name, depth, outer_prefix=None, inner=False):
+    ty = IT_NAMES[name]
+    opts = {'sort': None, 'reverse': False, 'batch': None, 'prefix': None}
+    k = r.random()
+    if ty == 'dict':
+        view = r.choice(['keys', 'values', 'items', 'keys', 'items', None])
+        src = ('view', name, view) if view else ('name', name)
+        ity = {'keys': 'str', 'values': 'num', 'items': 'pair', None: 'str'}[view]
+    else:
+        src = ('name', name) if r.random() < 0.65 else ('expr', name)
+        ity = ty
+    if k < 0.2:
+        opts['sort'] = 'rank' if ity == 'rec' else ''
+    elif k < 0.3:
+        opts['reverse'] = True
+    elif k < 0.4:
+        opts['sort'] = 'rank' if ity == 'rec' else ''
+        opts['reverse'] = True
+    if r.random() < 0.25 and not inner:
+        opts['batch'] = (r.randint(1, 3), r.randint(1, 3))
+    if r.random() < 0.3:
+        opts['prefix'] = 'q' if inner else 'p'
+    body = []
+    for _ in range(r.randint(1, 4)):
+        k = r.random()
+        if k < 0.4:
+            what = r.choice(['item', 'item', 'key'] if ity == 'pair' else ['name', 'rank', 'item'] if ity == 'rec' else ['item'])
+        elif k < 0.7:
+            what = r.choice(['index', 'number', 'length'])
+        elif k < 0.85:
+            body.append((r.choice(['ifstart', 'ifend']), r.choice(['[', ']', '^'])))
+            continue
+        elif outer_prefix:
+            body.append(('outer', outer_prefix, r.choice(['item', 'index'])))
+            continue
+        else:
+            body.append(('text', r.choice([':', '.', '-'])))
+            continue
+        body.append(('v', what, bool(opts['prefix']) and what not in ('name', 'rank', 'length') and r.random() < 0.6))
+    if not any(p[0] == 'v' and p[1] in ('item', 'key', 'name') for p in body):
+        body.insert(0, ('v', 'item', False))
+    if depth and r.random() < 0.35:
+        other = r.choice([n for n in sorted(IT_NAMES) if n != name])
+        body.append(('text', '('))
+        body.append(it_gen_in(r, other, depth - 1, opts['prefix'], inner=True))
+        body.append(('text', ')'))
+    body.append(('text', ','))
+    els = r.choice([None, None, 'nothing', 'empty %s' % name])
+    return ('in', src, opts, body, els)
+
+
+def it_gen_template(r):
+    parts = []
+    for name in r.sample(sorted(IT_NAMES), r.randint(1, 3)):
+        if r.random() < 0.4:
+            parts.append(('text', r.choice(['| ', ' / ', 'T:'])))
+        parts.append(it_gen_in(r, name, 1))
+    return parts
+
+
+IT_VARS = {'item': 'item', 'key': 'key', 'index': 'index', 'number': 'number', 'length': 'length'}
+
+
+def it_src(parts, prefix=None):
+    out = []
+    for p in parts:
+        if p[0] == 'text':
+            out.append(p[1])
+        elif p[0] == 'v':
+            what = p[1]
+            out.append('<dtml-var %s>' % (what if what in ('name', 'rank') else
+                                          '%s_%s' % (prefix, what) if p[2] else 'sequence-' + what))
+        elif p[0] == 'outer':
+            out.append('<dtml-var %s_%s>' % (p[1], p[2]))
+        elif p[0] in ('ifstart', 'ifend'):
+            out.append('<dtml-if sequence-%s>%s</dtml-if>' % (p[0][2:], p[1]))
+        else:
+            _, src, opts, body, els = p
+            tag = ['dtml-in']
+            tag.append(src[1] if src[0] == 'name' else 'expr="%s"' % src[1] if src[0] == 'expr' else 'expr="%s.%s()"' % (src[1], src[2]))
+            if opts['sort'] is not None:
+                tag.append('sort=%s' % opts['sort'] if opts['sort'] else 'sort')
+            if opts['reverse']:
+                tag.append('reverse')
+            if opts['batch']:
+                tag.append('size=%d start=%d orphan=0' % opts['batch'])
+            if opts['prefix']:
+                tag.append('prefix=%s' % opts['prefix'])
+            out.append('<%s>' % ' '.join(tag))
+            out.append(it_src(body, opts['prefix']))
+            if els is not None:
+                out.append('<dtml-else>' + els)
+            out.append('</dtml-in>')
+    return ''.join(out)
+
+
+def it_names(parts):
+    out = set()
+    for p in parts:
+        if p[0] == 'in':
+            out.add(p[1][1])
+            out |= it_names(p[3])
+    return out
+
+
+def it_batched_names(parts):
+    out = set()
+    for p in parts:
+        if p[0] == 'in':
+            if p[2]['batch']:
+                out.add(p[1][1])
+            out |= it_batched_names(p[3])
+    return out
+
+
+def it_ref(parts, ns, frames=()):
+    """plain-Python reading of the template: dtml-in goes once over what iterating the value gives NOW"""
+    out = []
+    for p in parts:
+        if p[0] == 'text':
+            out.append(p[1])
+        elif p[0] == 'v':
+            v = frames[-1][1][p[1]]
+            out.append(str(v))
+        elif p[0] == 'outer':
+            fr = [f for f in frames if f[0] == p[1]][-1]
+            out.append(str(fr[1][p[2]]))
+        elif p[0] == 'ifstart':
+            out.append(p[1] if frames[-1][1]['start'] else '')
+        elif p[0] == 'ifend':
+            out.append(p[1] if frames[-1][1]['end'] else '')
+        else:
+            _, src, opts, body, els = p
+            value = ns[src[1]]
+            if src[0] == 'view':
+                value = getattr(value, src[2])()
+            if isinstance(value, ItSeq):
+                items = [value[i] for i in range(len(value))]
+            else:
+                items = [x for x in value]
+            if not items:
+                out.append(els or '')
+                continue
+
+            def key_item(x):
+                return x if type(x) is tuple and len(x) == 2 else (None, x)
+            if opts['sort'] is not None:
+                if opts['sort'] == '':
+                    items.sort(key=lambda x: x[0] if type(x) is tuple and len(x) == 2 else x)
+                else:
+                    items.sort(key=lambda x: getattr(key_item(x)[1], opts['sort']))
+            if opts['reverse']:
+                items.reverse()
+            first, last = 0, len(items) - 1
+            if opts['batch']:
+                size, start = opts['batch']
+                start = min(start, len(items))
+                first, last = start - 1, min(start + size - 1, len(items)) - 1
+            for idx in range(first, last + 1):
+                key, item = key_item(items[idx])
+                vals = {'item': item, 'key': key, 'index': idx, 'number': idx + 1, 'length': len(items),
+                        'start': idx == first, 'end': idx == last}
+                if isinstance(item, ItRec):
+                    vals['name'], vals['rank'] = item.name, item.rank
+                out.append(it_ref(body, ns, frames + ((opts['prefix'], vals),)))
+    return ''.join(out)
+
+
+def it_outcome(f):
+    try:
+        return ['ok', f()]
+    except Exception as e:      # noqa
+        return ['raise', type(e).__name__, str(e)[:100]]
+
+
+def it_canon(kind, obj):
+    if kind in IT_ONE_SHOT:
+        return None
+    if kind == 'dict':
+        return [[k, repr(v)] for k, v in obj.items()]
+    cur = obj.items if kind in IT_WRAPPED else obj.current() if isinstance(obj, ItHeld) else list(obj)
+    return [repr(it_show(x)) if not isinstance(x, tuple) else repr(x) for x in cur]
+
+
+def iterable_check(res, r, n, maxlen=9):
+    classes = template_classes()
+    for j in range(n):
+        members = [['dict', 'dict', it_gen_content(r, 'dict', 1, 4)]]
+        for _ in range(r.randint(3, 7)):
+            ty = r.choice(['num', 'str', 'pair', 'rec', 'dict', 'num', 'str'])
+            kind = 'dict' if ty == 'dict' else r.choice([kd for kd in IT_KINDS if ty != 'rec' or kd in IT_UNHASHABLE_OK])
+            members.append([kind, ty, it_gen_content(r, ty, 0, 4)])
+        for ty in ('num', 'str', 'pair', 'rec'):
+            if not any(m[1] == ty for m in members):
+                members.append([r.choice(['list', 'bag', 'tuple']), ty, it_gen_content(r, ty, 1, 3)])
+        start_members = json.loads(json.dumps(members))
+        worlds = [it_world(members) for _ in range(3)]      # the one the templates see; the reference's twin; a new template's
+        tmpls = []
+        for i in range(r.randint(1, 3)):
+            parts = it_gen_template(r)
+            cls_idx = (j + i) % 2
+            src = it_src(parts)
+            try:
+                tmpls.append([parts, src, cls_idx, classes[cls_idx](src)])
+            except Exception as e:      # noqa
+                res.harness_errors.append('iterables: %r does not compile: %r' % (src, e))
+                return
+        res.evaluations += 1
+        shown, fails = [], []
+        last_bind = {}
+        for step in range(r.randint(3, maxlen)):
+            k = r.random()
+            if k < 0.3:
+                i = r.randrange(len(members))
+                kind, ty, _c = members[i]
+                op = r.choice(['add', 'add', 'pop', 'clear', 'replace', 'replace'])
+                content = it_gen_content(r, ty, 1, 2) if op == 'add' else it_gen_content(r, ty, 0, 4) if op == 'replace' else []
+                for w in worlds:
+                    w[i] = it_mutate(kind, w[i], op, content)
+                shown.append({'the application changes container %d (%s)' % (i, kind): op, 'items': content})
+                res.count('iterables: change=%s' % op)
+                continue
+            if k < 0.4:
+                tm = r.choice(tmpls)
+                op = r.choice(['pickle round trip', 'deepcopy', 'cook'])
+                if op == 'cook':
+                    tm[3].cook()
+                else:
+                    tm[3] = pickle.loads(pickle.dumps(tm[3])) if op[0] == 'p' else copy.deepcopy(tm[3])
+                shown.append({'template %d' % tmpls.index(tm): op})
+                continue
+            ti = r.randrange(len(tmpls))
+            parts, src, cls_idx, _t = tmpls[ti]
+            names = sorted(it_names(parts))
+            if k < 0.55 and last_bind.get(ti):
+                bind = last_bind[ti]                    # the same call as before, after whatever happened in between
+            else:
+                bind = it_gen_bindings(r, names, members, it_batched_names(parts))
+            last_bind[ti] = bind
+            shown.append({'render template %d' % ti: bind})
+            for n_, how in bind.items():
+                res.count('iterables: dtml-in over %s' % (('long-lived %s' % members[how[1]][0]) if how[0] == 'member' else
+                                                           ('short-lived %s' % how[1]) if how[0] == 'new' else
+                                                           'short-lived %s %s' % (how[0], members[how[1]][0])))
+            for rep in range(2 if r.random() < 0.5 else 1):
+                want = it_outcome(lambda: it_ref(parts, {n_: it_bind(worlds[1], members, how) for n_, how in bind.items()}))
+                got = it_outcome(lambda: tmpls[ti][3](**{n_: it_bind(worlds[0], members, how) for n_, how in bind.items()}))
+                new = it_outcome(lambda: classes[cls_idx](src)(**{n_: it_bind(worlds[2], members, how) for n_, how in bind.items()}))
+                res.count('iterables: outcome=' + ('rendered, %s' % ('empty text' if not want[1] else 'some text') if want[0] == 'ok' else
+                                                   'the reference fails'))
+                if want[0] != 'ok':
+                    res.harness_errors.append('iterables: the reference fails on %r with %r: %r' % (src, bind, want))
+                    return
+                for label, v in (('the template of the history', got), ('a template constructed now, on an equal application', new)):
+                    if v != want:
+                        fails.append('step %d%s: %s gives %r, expected (dtml-in goes over what iterating the value gives at the time '
+                                     'of the rendering) %r' % (len(shown) - 1, ' (the call repeated)' if rep else '', label, v, want))
+                if fails:
+                    break
+            for i, (kind, _ty, _c) in enumerate(members):
+                a, b = it_canon(kind, worlds[0][i]), it_canon(kind, worlds[1][i])
+                if a != b:
+                    fails.append('step %d: after the rendering container %d (%s) of the application holds %r, expected %r (rendering '
+                                 'changes nothing)' % (len(shown) - 1, i, kind, a, b))
+            if fails:
+                break
+        res.nt(('iterables',) + tuple(t[1] for t in tmpls))
+        res.count('history=iterables (long-lived containers changed between renderings, short-lived views / generators)')
+        for w in fails[:2]:
+            res.oracle_fail.append({'case': {'templates': [{'class': CLASS_NAMES[t[2]], 'source': t[1]} for t in tmpls],
+                                             'containers at the start [kind, item type, items]': start_members,
+                                             'history': shown}, 'what': w})
+
+
 def show_case(init, ops, cls_idx):
     return {'class': CLASS_NAMES[cls_idx], 'init': [SOURCES[init[0]], init[1], init[2]],
             'ops': show_ops(ops),
@@ -2040,7 +2589,7 @@ def show_case(init, ops, cls_idx):
 
 
 def check(res, r, n, maxlen, have_driver, streaks=0, idioms=0, calls=0, files=0, overlaps=0, tier='quick', encs=0, xfams=0, procs=0,
-          proc_seeds=()):
+          proc_seeds=(), iters=0):
     hist = []
     for j in range(n):
         init = [r.randrange(len(SOURCES)), gen_dict(r), gen_dict(r)]
@@ -2110,6 +2659,8 @@ def check(res, r, n, maxlen, have_driver, streaks=0, idioms=0, calls=0, files=0,
         exception_family_check(res, common.rng('C17-exception-families'), xfams, maxlen)
     if procs:
         process_check(res, common.rng('C17-processes'), procs, proc_seeds)
+    if iters:
+        iterable_check(res, common.rng('C17-iterables'), iters)
     file_template_check(res)
 
 
@@ -2138,15 +2689,21 @@ def run(res, tier, have_driver):
                 'base classes, nested, default, else) against a reference of the handler rule; templates with 1..4 var modifiers / '
                 'multi-key sorts / let / try pickled here and rendered in child interpreters with other string hash seeds against a '
                 'reference of the modifier table order or the result here; '
-                'non-trivial = distinct (kind, class, operation sequence), idiom templates, sub-template programs, '
+                'dtml-in (by name / expr / expr="d.items()", sort / reverse / batch / prefix / else / nested) over long-lived '
+                'containers of every iterable kind (list, tuple, deque, custom sequence, dict, set, frozenset, iterable-only and '
+                'mapping-like objects, kept dict views, one-shot iterators and generators, rendered again when run dry) that the '
+                'application changes in place or replaces between the renderings of 2..3 templates, and over short-lived objects '
+                'made for one call (dict views, generators, iterators, equal copies, new containers) against a reference interpreter '
+                'on an equal twin application + a template constructed now; containers compared with the twin after every rendering; '
+                'non-trivial = distinct (kind, class, operation sequence), idiom templates, sub-template programs, sets of dtml-in templates, '
                 '(source, operation) pairs of overlapping cases'
                 % len(SOURCES))
     if tier == 'quick':
         check(res, r, 700, 8, have_driver, streaks=8, idioms=300, calls=200, files=150, overlaps=60, encs=500, xfams=400, procs=150,
-              proc_seeds=(1, 2, 3, 4, 1234))
+              proc_seeds=(1, 2, 3, 4, 1234), iters=400)
     else:
         check(res, r, 8000, 14, have_driver, streaks=60, idioms=3000, calls=3000, files=3000, overlaps=150, tier='thorough', encs=8000,
-              xfams=6000, procs=1500, proc_seeds=(1, 2, 3, 4, 5, 6, 7, 11, 42, 1234, 99999, 'random'))
+              xfams=6000, procs=1500, proc_seeds=(1, 2, 3, 4, 5, 6, 7, 11, 42, 1234, 99999, 'random'), iters=8000)
     res.assumptions += ['compiling and rendering a compiled program are parameters of the state-machine model (Engine.parse / '
                         'Engine.exec); that rendering a compiled program is a function of (program, defaults, variables, inputs) '
                         'only — i.e. that compiled tags keep no per-render state that a later render reads — is what the oracle '
@@ -2162,7 +2719,7 @@ def search_more(res, tier):
     r = common.rng('C17-more')
     res2 = common.Result('C17')
     check(res2, r, 2500, 12, False, streaks=20, idioms=1000, calls=800, files=600, overlaps=40, encs=1500, xfams=1500, procs=300,
-          proc_seeds=(5, 6, 7, 11, 42))
+          proc_seeds=(5, 6, 7, 11, 42), iters=1500)
     return res2.oracle_fail
 
 
